@@ -7,6 +7,7 @@ import (
 	"net/http"
 	"net/http/httptest"
 	"sync"
+	"sync/atomic"
 	"time"
 
 	"github.com/sassoftware/relic/v8/cmdline/workercmd"
@@ -39,8 +40,11 @@ type simWorkerRT struct {
 // returned function undoes both.
 func useSimWorker(w *world.World) (rt *simWorkerRT, restore func()) {
 	rt = &simWorkerRT{w: w, handlers: map[string]http.Handler{}}
-	oldT := http.DefaultClient.Transport
-	http.DefaultClient.Transport = rt
+	// http.DefaultClient is process-wide and relic's background goroutines (a
+	// health-check ping still in flight when a run ends) read its Transport at
+	// any time: it is set once per process to a dispatcher and never written
+	// again; what changes per run is an atomic pointer
+	restoreRT := useWorkerTransport(rt)
 	token.Openers[simWorkerType] = func(conf *config.Config, tokenName string, prompt passprompt.PasswordGetter) (token.Token, error) {
 		base, err := token.Openers[world.SimTokenType](conf, tokenName, prompt)
 		if err != nil {
@@ -55,9 +59,31 @@ func useSimWorker(w *world.World) (rt *simWorkerRT, restore func()) {
 		return worker.ZZNew(conf, tokenName, host, cookie)
 	}
 	return rt, func() {
-		http.DefaultClient.Transport = oldT
+		restoreRT()
 		delete(token.Openers, simWorkerType)
 	}
+}
+
+var (
+	simWorkerOnce sync.Once
+	simWorkerCur  atomic.Pointer[http.RoundTripper]
+)
+
+// useWorkerTransport routes http.DefaultClient (which relic's worker token
+// uses) to rt for the current run; the returned function ends that.
+func useWorkerTransport(rt http.RoundTripper) (restore func()) {
+	simWorkerOnce.Do(func() { http.DefaultClient.Transport = simWorkerDispatch{} })
+	simWorkerCur.Store(&rt)
+	return func() { simWorkerCur.Store(nil) }
+}
+
+type simWorkerDispatch struct{}
+
+func (simWorkerDispatch) RoundTrip(req *http.Request) (*http.Response, error) {
+	if rt := simWorkerCur.Load(); rt != nil {
+		return (*rt).RoundTrip(req)
+	}
+	return nil, fmt.Errorf("no simulated worker is listening on %s (run is over)", req.URL.Host)
 }
 
 func (rt *simWorkerRT) RoundTrip(req *http.Request) (*http.Response, error) {
